@@ -126,6 +126,10 @@ pub fn run_scenario(bench: &mut Bench, sc: &Scenario) -> ScenarioOutcome {
     match &r.outcome {
         Outcome::Returned => {
             let got = norm(r.score);
+            if std::env::var("VERIF_TRACE").is_ok() {
+                let mvv = r.mv.map(|mv| bench.reference.move_value(&board, &mv, sc.depth));
+                eprintln!("trace c06 expiries={:?} final score={} mv={} m={} move_value={:?} memo={} qmemo={}", sc.expiries, r.score, move_str(&r.mv), m, mvv, bench.reference.memo.len(), bench.reference.q_memo.len());
+            }
             if got != m {
                 out.violations.push((
                     "final_value_wrong".into(),
@@ -334,6 +338,16 @@ pub fn replay_value(v: &Value) -> Vec<Violation> {
     }
     let Some(sc) = Scenario::from_json(v) else { return vec![] };
     with_bench(|b| {
+        if let Ok(n) = std::env::var("VERIF_C06_WARM") {
+            // debugging aid: run the scenarios with earlier expiry reads first, on the same bench
+            let n: u64 = n.parse().unwrap_or(0);
+            for j in 1..=n {
+                let mut w = sc.clone();
+                w.expiries = vec![j];
+                let o = run_scenario(b, &w);
+                eprintln!("warm {} -> {:?}", j, o.violations.iter().map(|x| x.0.clone()).collect::<Vec<_>>());
+            }
+        }
         let o = run_scenario(b, &sc);
         o.violations
             .into_iter()
